@@ -347,6 +347,28 @@ def run(repo, rep, tier):
             continue
         fill = repo.own_method(c, "fill")
         routing = self_callees(repo, c, fill) - {"_checkForCrossReferences", "quantity", "transform"}
+        # only functions that compute an INDEX/KEY for fill count as routing functions shared with the accessors: their result is used
+        # (directly or through a local) as the subscript of a child slot.  A helper that hands back the sub-aggregator itself
+        # (e.g. an extracted interval search) is fill's private business.
+        sn_f = fill.params[0]
+        idx_locals = {}
+        for n in walk_local_stmt(fill.node):
+            if isinstance(n, ast.Assign) and len(n.targets) == 1 and isinstance(n.targets[0], ast.Name):
+                ch = chain(n.value.func) if isinstance(n.value, ast.Call) else None
+                if ch and ch[0] == sn_f and len(ch) == 2:
+                    idx_locals[n.targets[0].id] = ch[1]
+        index_fns = set()
+        for n in walk_local_stmt(fill.node):
+            if isinstance(n, ast.Subscript):
+                for x in ast.walk(n.slice):
+                    if isinstance(x, ast.Call):
+                        ch = chain(x.func)
+                        if ch and ch[0] == sn_f and len(ch) == 2:
+                            index_fns.add(ch[1])
+                    if isinstance(x, ast.Name) and x.id in idx_locals:
+                        index_fns.add(idx_locals[x.id])
+        predicates = {r for r in routing if r in ("under", "over", "nan")}
+        routing = {r for r in routing if r in index_fns or r in predicates}
         for an in ACCESSORS:
             a = repo.lookup(c, an)
             if not isinstance(a, FuncInfo):
@@ -374,7 +396,7 @@ def run(repo, rep, tier):
                keep=lambda f: f.file.startswith("histogrammar/plot/") or any(x in f.construct for x in (".bin_", ".num_bins", ".mpv", ".range", ".project", ".xy_", ".x_lim", ".y_lim")))
     r6 = rep.rule("R13.6", "children are looked up by an index obtained from the class's own index methods, never from inline arithmetic on the query", floor=6)
     from ..model import build_models as _bm
-    _models = _bm(repo)
+    _models = _bm(inlined_repo)
     for c in prims:
         if c.name not in BINNED:
             continue
@@ -440,7 +462,7 @@ def run(repo, rep, tier):
         if c.name not in BINNED:
             continue
         from ..model import build_models
-        slots = set(build_models(repo)[c.name].slots)
+        slots = set(build_models(inlined_repo)[c.name].slots)
         cnt = {}
         counters = {}
         for an in ACCESSORS:
